@@ -48,8 +48,8 @@ inductive POut where
 inductive Pc where
   | idle
   | skp                                        -- next: `completed.store(true, SeqCst)`      (iter.rs early_exit)
-  | pre (r : Req)                              -- next: `completed.load(SeqCst)` before reserving
   | resv (r : Req)                             -- next: `reserved.fetch_add(r.len, AcqRel)`
+  | pre (r : Req) (b : Nat)                    -- next: `completed.load(SeqCst)` right after reserving
   | wait (r : Req) (b : Nat)                   -- next: `yielded.load(Acquire)`
   | chk (r : Req) (b : Nat)                    -- next: `completed.load(Relaxed)`
   | cs (r : Req) (b : Nat) (acc : List Nat)    -- next: entry of the wrapped `next()`
@@ -77,7 +77,7 @@ def setTh (c : Cfg) (t : Nat) (x : Thread) : Cfg :=
 
 /-- return from request `r` with output `o`; a looping request that did not see the end goes again -/
 def ret (x : Thread) (r : Req) (o : POut) : Thread :=
-  if r.isLoop ∧ o ≠ .fin then { x with pc := .pre r, outs := x.outs ++ [o] }
+  if r.isLoop ∧ o ≠ .fin then { x with pc := .resv r, outs := x.outs ++ [o] }
   else { x with pc := .idle, outs := x.outs ++ [o] }
 
 def step (s : Script) (t : Nat) (c : Cfg) : Cfg :=
@@ -87,12 +87,12 @@ def step (s : Script) (t : Nat) (c : Cfg) : Cfg :=
     match x.todo with
     | [] => c
     | .skip :: rest => setTh c t { x with pc := .skp, todo := rest }
-    | r :: rest => setTh c t { x with pc := .pre r, todo := rest }
+    | r :: rest => setTh c t { x with pc := .resv r, todo := rest }
   | .skp => setTh { c with C := true } t (ret x .skip .unit)
-  | .pre r =>
-    if c.C then setTh c t (ret x r .fin) else setTh c t { x with pc := .resv r }
   | .resv r =>
-    setTh { c with R := c.R + r.len } t { x with pc := .wait r c.R }
+    setTh { c with R := c.R + r.len } t { x with pc := .pre r c.R }
+  | .pre r b =>
+    if c.C then setTh c t (ret x r .fin) else setTh c t { x with pc := .wait r b }
   | .wait r b =>
     if b = c.Y then setTh c t { x with pc := .cs r b [] }
     else if b < c.Y then setTh c t (ret x r .fin)
@@ -139,8 +139,8 @@ def emit (s : Script) (t : Nat) (c : Cfg) : Option Ev :=
   match (c.th t).pc with
   | .idle => none
   | .skp => some (.st .C .seqcst 1)
-  | .pre _ => some (.ld .C .seqcst (if c.C then 1 else 0))
   | .resv r => some (.faa .R .acqrel c.R r.len)
+  | .pre _ _ => some (.ld .C .seqcst (if c.C then 1 else 0))
   | .wait _ _ => some (.ld .Y .acquire c.Y)
   | .chk _ _ => some (.ld .C .relaxed (if c.C then 1 else 0))
   | .cs _ _ _ => some .srcEnter
